@@ -212,6 +212,7 @@ class FileStore(BaseEngine):
                 'charset': pick(rng, ('latin1', 'latin1', 'latin1', 'utf-8', 'utf-16', 'cp1252')),
                 'tracks': tracks, 'via': pick(rng, ('file', 'filename')),
                 'saves': pick(rng, (1, 1, 1, 2, 3)), 'merge_edit': rng.random() < 0.15,
+                'nested': pick(rng, (None, None, None, None, None, 'ok', 'fail')),
                 'prelude': [pick(rng, ('utf-8', 'utf-16', 'cp1252', 'latin1')) for _ in range(rng.randint(1, 2))]
                 if rng.random() < 0.2 else []}
         if cfg == 'alt_image':
@@ -479,6 +480,26 @@ class FileStore(BaseEngine):
                 stats['fault:merged_copy_edited_earlier'] += 1
             except Exception:
                 pass
+        if plan.get('nested') and mf.tracks:
+            # while our file is being written the application loads another file (another charset); that inner
+            # call may fail - either way the rest of our file must be written as if nothing had happened
+            from .charset import LazyTrack
+            inner = MidiFile(type=1, charset='utf-16')
+            inner.tracks.append(MidiTrack([MetaMessage('text', text='in', time=0)]))
+            idisk = simdisk.SimDisk()
+            inner.save(file=idisk.handle('inner.mid', 'wb'))
+            iimg = bytes(idisk.files['inner.mid'])
+            fail = plan['nested'] == 'fail'
+
+            def nested_call(iimg=iimg, fail=fail):
+                try:
+                    MidiFile(file=simdisk.SimDisk().handle_from(iimg[:len(iimg) - (3 if fail else 0)]), charset='utf-16')
+                except Exception:
+                    pass
+            lt = LazyTrack(mf.tracks[0])
+            lt.nested = {'at': len(lt) // 2, 'fn': nested_call}
+            mf.tracks[0] = lt
+            stats['fault:nested_call'] += 1
         try:
             for _ in range(max(1, plan.get('saves', 1))):
                 image = self._save(mf, plan['via'], disk)
@@ -524,6 +545,15 @@ class FileStore(BaseEngine):
                 raise Violation('roundtrip:track-differs',
                                 f'track {i}, message #{j}: loaded {got[j] if j < len(got) else None!r}, expected '
                                 f'{exp[j] if j < len(exp) else None!r} (loaded {len(got)} messages, expected {len(exp)})')
+        # the same image loaded with clip=True: nothing in it needs clipping, so it must load to the same tracks
+        try:
+            disk.files['c.mid'] = bytearray(image)
+            clipped = MidiFile(file=disk.handle('c.mid', 'rb'), charset=self._charset(plan), clip=True)
+        except Exception as e:
+            raise Violation(f'roundtrip:load-raised:{type(e).__name__}', f'loading the image with clip=True raised {e!r}')
+        if len(clipped.tracks) != len(model) or not all(same_track(list(a), b) for a, b in zip(clipped.tracks, model)):
+            raise Violation('roundtrip:track-differs', f'the image loaded with clip=True (no data byte above 127 in it) '
+                                                       f'gives {[list(t) for t in clipped.tracks]!r}, expected {model!r}')
         if any(e[0] == 'eot' for tr in plan['tracks'] for e in tr[:-1]):
             stats['probe:eot_folded_into_next'] += 1
         self._probe_image(image, stats)
@@ -709,6 +739,8 @@ class FileStore(BaseEngine):
             yield replace_at(plan, ('prelude',), [])
         if plan.get('merge_edit'):
             yield replace_at(plan, ('merge_edit',), False)
+        if plan.get('nested'):
+            yield replace_at(plan, ('nested',), None)
         if plan.get('bystander'):
             c = dict(plan)
             c.pop('bystander')
